@@ -28,7 +28,10 @@ class System:
         self.labels = ['A' if i % 2 == 0 else 'B' for i in range(self.S)]
         self.radius, self.Q = ad.pick_radius(rng, N, 0.7, 1.1, [1.0])
         self.T, self.AF = int(rng.integers(8, 16)), int(rng.integers(2, 4))
-        self.pos_f = np.array(ad.positions_near(rng, self.G, N, self.sites, [self.radius] * self.S, self.T, self.AF))
+        # every other system leaves one site unvisited: under a permutation of the sites it may be the first, a middle or the last one
+        self.unvisited = int(rng.integers(0, self.S)) if rng.random() < 0.5 else None
+        visit = [i for i in range(self.S) if i != self.unvisited]
+        self.pos_f = np.array(ad.positions_near(rng, self.G, N, self.sites, [self.radius] * self.S, self.T, self.AF, visit))
         self.AO = int(rng.integers(1, 3))
         base = rng.integers(0, N, size=(self.AO, 3))
         self.pos_o = np.mod(base[None] + np.cumsum(rng.integers(-1, 2, size=(self.T, self.AO, 3)), axis=0), N)
@@ -90,6 +93,16 @@ def observe(sysm, traj, structure, rel, window, cut):
     def j_back(rows):
         return sorted([[atom_back(r[0]), site_back(r[1]), site_back(r[2]), r[3], r[4]] for r in rows])
     out['events'] = ev_back(rows_of(tr.events, EV_COLS))
+    # occupancies per site (pymatgen refuses a site occupied by more than one atom: then there is no answer to compare)
+    try:
+        occ = tr.occupancy()
+        num = [0] * sysm.S
+        for s_, site in enumerate(occ):
+            num[site_back(s_)] = to_int(site.species.num_atoms, len(H))
+        out['occ'] = num
+    except ValueError as e:
+        if 'occupanc' not in str(e).lower():
+            raise
     j = jumps_or_none(tr, 0)
     out['jumps'] = j_back(rows_of(j.data, J_COLS)) if j is not None else []
     if j is not None:
@@ -198,6 +211,8 @@ def run(rep):
             sites_recs.append({'b': bid, 'act': 'Hist', 'hist': o['hist'], 'meta': meta})
             sites_recs.append({'b': bid, 'act': 'Events', 'rows': o['events'], 'meta': meta})
             sites_recs.append({'b': bid, 'act': 'Jumps', 'm': 0, 'rows': o['jumps'], 'meta': meta})
+            if 'occ' in o:
+                sites_recs.append({'b': bid, 'act': 'Occ', 'num': o['occ'], 'meta': meta})
             if 'matrix' in o:
                 sites_recs.append({'b': bid, 'act': 'Matrix', 'kind': 'jumps', 'm': 0, 'S': sysm.S, 'M': o['matrix'], 'njumps': o['njumps'], 'meta': meta})
                 sites_recs.append({'b': bid, 'act': 'JumpDiff', 'm': 0, 'num': o['jumpdiff'], 'sites': sysm.sites, 'G': sysm.G, 'N': N, 'R': sysm.R, 'meta': meta})
